@@ -231,6 +231,9 @@ class SynthWorld:
             if k == "dsge":
                 return DynamicStructuredGrammaticalEvolutionRepresentation(self.grammar, max_depth)
             if k == "stack":
+                # the stack mapping is bounded by failures_limit passes over the genome (<= 3 gene reads per decision): a
+                # mapping that reads more genes than that does not return (bounded liveness, judged by C01)
+                self.gene_read_cap = max(self.gene_read_cap, 8 * (self.failures_limit + 1) * max(self.gene_length, 4) + 2000)
                 return StackBasedGGGPRepresentation(self.grammar, gene_length=max(self.gene_length, 4), failures_limit=self.failures_limit)
             raise ValueError(k)
 
